@@ -162,9 +162,13 @@ func runC04(c *core.Ctx) {
 		spec := an.DecideSpec{Fn: fn,
 			Vars: []an.Var{an.Bool("lookupOK"), an.Bool("storeSaysFull"), an.Bool("modified")},
 			Conds: []an.CondMatcher{
-				an.NilCond("lookupOK", func(v ssa.Value) bool { return callResult(v, 1, "store.SnapshotStore.DueNext", "snapshot.Store.DueNext") }),
+				an.NilCond("lookupOK", func(v ssa.Value) bool {
+					return callResult(v, 1, "store.SnapshotStore.DueNext", "snapshot.Store.DueNext")
+				}),
 				func(cond ssa.Value) (func(an.Val) bool, bool) {
-					ev, ok := an.CmpCond("_", func(v ssa.Value) bool { return callResult(v, 0, "store.SnapshotStore.DueNext", "snapshot.Store.DueNext") }, an.IsConstInt(full))(cond)
+					ev, ok := an.CmpCond("_", func(v ssa.Value) bool {
+						return callResult(v, 0, "store.SnapshotStore.DueNext", "snapshot.Store.DueNext")
+					}, an.IsConstInt(full))(cond)
 					if !ok {
 						return nil, false
 					}
